@@ -234,6 +234,7 @@ func Load(cfgName string) (*Program, error) {
 	asmByName := map[string]*asm.Func{}
 	for _, af := range p.AsmFile {
 		for _, fn := range af.Funcs {
+			fn.Undecided = append(fn.Undecided, af.Undecided...)
 			asmByName[fn.Name] = fn
 		}
 	}
